@@ -311,7 +311,9 @@ func reportProperty(o *Options, run *propRun, meta *PropMeta, known *KnownFile, 
 	}
 	// baseline: named (non-safe) obligations that discharged on the pinned tree must still exist
 	for _, b := range baseline {
-		if strings.Contains(b, "#safe:") {
+		if strings.Contains(b, "#safe:") || strings.Contains(b, "#frame:") || strings.Contains(b, "#reach:") {
+			// generated per memory region / per site: their names follow the engine's memory model and the
+			// code's layout, so their absence is not evidence of anything (they are checked when present)
 			continue
 		}
 		full := b
